@@ -274,6 +274,25 @@ class Delegating(BaseHandler):
             self.counter.leave()
 
 
+class SyncOnly(BaseHandler):
+    """The documented minimal recipe: a BaseHandler subclass that implements the synchronous interface only; on ASGI the
+    inherited deserialize_async() wrapper reads the body and calls deserialize()."""
+
+    def __init__(self, inner, counter):
+        self.inner = inner
+        self.counter = counter
+
+    def serialize(self, media, content_type):
+        return self.inner.serialize(media, content_type)
+
+    def deserialize(self, stream, content_type, content_length):
+        self.counter.enter()
+        try:
+            return self.inner.deserialize(stream, content_type, content_length)
+        finally:
+            self.counter.leave()
+
+
 class Partial(BaseHandler):
     """Custom handler that looks at the first byte only and asks falcon to exhaust the stream."""
 
@@ -321,6 +340,8 @@ def make_handler(ct, mode, counter):
         return instrument_stock(inner, counter)
     if mode == 'generic':
         return Delegating(inner, counter)
+    if mode == 'sync_only':
+        return SyncOnly(inner, counter)
     raise HarnessError('unknown handler mode %r' % (mode,))
 
 
@@ -1164,11 +1185,15 @@ def json_bodies():
     literals = st.sampled_from([b'NaN', b'[Infinity]', b'-Infinity', b'{"a":1,"a":2}', b'[1,]', b"{'a':1}", b'01', b'1 2',
                                 b'"\\ud800"', b'"\t"', b'[1]\x00', b'\xef\xbb\xbf[]', b'nul', b'0', b'""', b'"a"', b'1e999',
                                 b'-', b'{"a":}', b'[', b']', b'\x00']).map(lambda b: ('literal', b, None))
+    # integer literals around the interpreter's int <-> str conversion limit (4300 digits by default): beyond it the
+    # stdlib parser refuses the document with a plain ValueError; a handler must turn that into a malformed-media error
+    bigint = st.builds(lambda n, wrap: ('big_int:%d' % n, (b'[' + b'7' * n + b']') if wrap else b'9' * n, None),
+                       st.sampled_from([4299, 4300, 4301, 5000, 20000]), st.booleans())
     deep = st.builds(lambda o, d, closed: ('deep:%d' % d, _deep(o[0], d, closed, o[1]), None),
                      st.sampled_from([('[', ']'), ('{"a":', '}'), ('[{"a":', '}]')]),
                      st.sampled_from([10, 10, 400, 1000, 3000, 100000]), st.sampled_from([True, False, True]))
     return weighted((4, valid), (1, empty), (1, white), (2, trunc), (1, corrupt), (1, stray), (2, wrong), (1, latin),
-                    (1, rand), (1, literals), (2, deep))
+                    (1, rand), (1, literals), (2, deep), (1, bigint))
 
 
 def form_bodies():
@@ -1206,7 +1231,7 @@ def history_cases():
         build,
         st.sampled_from(['wsgi', 'asgi']),
         weighted((3, json_ctb), (1, form_ctb)),
-        st.sampled_from(['stock', 'stock', 'generic', 'generic', 'partial']),
+        st.sampled_from(['stock', 'stock', 'generic', 'generic', 'partial', 'sync_only', 'sync_only']),
         st.lists(_op, min_size=1, max_size=6),
         chunkings(), st.booleans(), st.booleans(),
     )
